@@ -442,7 +442,13 @@ class UTPM(Ring, RawAlgorithmsMixIn):
             return self.__class__(y_data)
 
     def __rpow__(self,r):
-        return UTPM.exp(numpy.log(r)*self)
+        # take the logarithm of the base in (at least) double precision: numpy.log of an
+        # int8 or float16 scalar would be computed in half precision
+        r = numpy.asarray(r)
+        logr = numpy.log(r.astype(numpy.result_type(r.dtype, numpy.float64)))
+        if logr.ndim == 0:
+            logr = logr[()]
+        return UTPM.exp(logr*self)
 
 
     @classmethod
